@@ -25,3 +25,14 @@ SUITES = {
 ALL_FAMILIES = [("world", ""), ("world", "nofault")]
 PROP_INFO["C20"] = {"level": "exploration", "rule": WORLD_RULE, "probes": [], "budget": {"quick": 60, "thorough": 1200}}
 SUITES["C20"] = {"quick": [{"family": "world", "mode": "", "share": 1}], "thorough": [{"family": "world", "mode": "", "share": 1}]}
+SUITES["C01"]["quick"].append({"family": "world", "mode": "addpath", "share": 2})
+SUITES["C01"]["thorough"].append({"family": "world", "mode": "addpath", "share": 2})
+ALL_FAMILIES.append(("world", "addpath"))
+
+PROP_INFO["X_ADDPATH"] = {"level": "exploration", "rule": WORLD_RULE, "probes": [], "budget": {"quick": 60, "thorough": 600}}
+SUITES["X_ADDPATH"] = {"quick": [{"family": "world", "mode": "addpath", "share": 1}], "thorough": [{"family": "world", "mode": "addpath", "share": 1}]}
+
+PROP_INFO["C03"] = {"level": "exploration", "rule": WORLD_RULE + " For C03 the candidate sets are those the Loc-RIB holds at each quiescent point; arrival order and age come from the simulated sessions.", "probes": ["best_checked"], "budget": {"quick": 60, "thorough": 1200}}
+SUITES["C03"] = {"quick": [{"family": "world", "mode": "select", "share": 3}, {"family": "world", "mode": "", "share": 1}],
+                 "thorough": [{"family": "world", "mode": "select", "share": 3}, {"family": "world", "mode": "", "share": 1}]}
+ALL_FAMILIES.append(("world", "select"))
